@@ -1,5 +1,5 @@
 """Property -> rules wiring.  Each function returns kwargs for Ctx.finish()."""
-from . import control, history, descent, warm, degenerate, feasible, plumb, matrix, storage, formulas, penalgebra, misc, extents, blockpen, cox, reweight, critical, kernels
+from . import control, history, descent, warm, degenerate, feasible, plumb, matrix, storage, formulas, penalgebra, misc, extents, blockpen, cox, reweight, critical, kernels, pairing
 
 TB = ["CPython ast", "role seeds: positional parameters of BaseSolver._solve and the "
       "fixed slot-method names of the datafit/penalty interface"]
@@ -66,6 +66,7 @@ def c05(A, ctx, tier):
     warm.r_warmfit(A, ctx, dict(floor=5))
     warm.r_cache(A, ctx, {})
     misc.r_alias(A, ctx, dict(floor=10))
+    pairing.r_pair_eq(A, ctx, dict(floor=30))
     ctx.assume("a consistent (w_init, Xw_init) pair is the caller's contract")
     return dict(explanation="warm starts and paths: optional-argument idiom, pairing of "
                 "every coefficient store with its model-fit delta, path discipline "
